@@ -456,6 +456,57 @@ func VerifC07_Reschedule() {
 	rt.Reach("resched-end")
 }
 
+// a task that is being started from the queue is scheduled (from outside) for
+// a later time while it waits for its time slot: the queued run happens, the
+// scheduled one not before its time
+func VerifC07_ScheduledWhileBeingStarted() {
+	rt.SchedYieldOnly(true)
+	m := c07Reset()
+	u := rt.Unit()
+	runs := 0
+	var lastStart time.Time
+	t := m.NewTask("t", func(context.Context, *Task) error {
+		runs++
+		lastStart = time.Now()
+		return nil
+	}).MaxDelay(0)
+	go taskQueueHandler()
+	go taskScheduleHandler()
+	t0 := time.Now()
+	switch rt.Choice("submit", 3) {
+	case 0:
+		t.Queue()
+	case 1:
+		t.QueuePrioritized()
+	case 2:
+		t.StartASAP()
+	}
+	time.Sleep(u / 2) // the queue handler has taken the task and waits for a time slot
+	rt.Assert(runs == 0, "schedwhilestarting/waiting-for-its-time-slot")
+	at := t0.Add(6 * u)
+	t.Schedule(at)
+	taskTimeslot <- struct{}{} // the time slot comes
+	go func() {
+		for {
+			taskTimeslot <- struct{}{}
+		}
+	}()
+	time.Sleep(2 * u)
+	rt.Assert(runs == 1, "schedwhilestarting/queued-run-happened-and-nothing-started-before-the-scheduled-time")
+	// (another task is scheduled: the schedule handler looks at the schedule again)
+	otherRan := false
+	m.NewTask("other", func(context.Context, *Task) error { otherRan = true; return nil }).Schedule(t0.Add(20 * u))
+	time.Sleep(u)
+	rt.Assert(runs == 1, "schedwhilestarting/nothing-started-before-the-scheduled-time")
+	rt.Assert(!otherRan, "schedwhilestarting/other-task-not-early")
+	time.Sleep(8 * u)
+	rt.Assert(runs == 2, "schedwhilestarting/scheduled-run-happened")
+	if runs == 2 {
+		rt.Assert(!lastStart.Before(at), "schedwhilestarting/scheduled-run-not-before-its-time")
+	}
+	rt.Reach("schedwhilestarting-end")
+}
+
 // ---- O5: no self-overlap when re-queued while executing; the re-submission is not lost ----
 
 func VerifC07_NoSelfOverlap() {
